@@ -1,6 +1,7 @@
 """C01 - ancestor sets are the exact closure (clauses: PAIR edge writers, PHASE cache writers, ROLE cache write, FIELD readers; WIT in the thorough tier)"""
 import re
 from engines import Atomic, MutSummary, RefDeriv, positive_edges, origins
+from engines import check_required_steps
 from prov import Prov, params_of, field_names
 from props import codec
 
@@ -208,6 +209,13 @@ def run(ck, prog, ctx):
                     trans.append((b, s))
         okt = trans and all(b.id == cat.id for b, _ in trans)
         ck.ob("PHASE", "transition", bool(okt), "the AllTerms -> ConnectedTerms transition is performed by %s" % sorted({b.short for b, _ in trans}), where=cat.where())
+
+    if cat is not None:
+        check_required_steps(ck, "PHASE", prog, cat, [("build the cache of every term", lambda t: t.callee.res in cache_writers or (t.callee.res or "").endswith("::all_grandparents"))])
+    for wid in sorted(cache_writers):
+        wb_ = prog.bodies[wid]
+        if wb_.kind in ("Fn", "AssocFn") and wb_.impl_self and wb_.impl_self.get("adt") == "ontology::builder::Builder":
+            check_required_steps(ck, "ROLE", prog, wb_, [("write the cache", lambda t: any(t.callee.res == a.id for a in accessor_mut)), ("visit every direct parent", lambda t: (t.callee.res or "").endswith("::all_grandparents") or t.callee.res in cache_writers)])
 
     # ------------------------------------------------------------------ ROLE: the cache write
     for wid in sorted(cache_writers):
